@@ -318,7 +318,7 @@ def _part_b(tier):
     import tcv
 
     tcv.quiet_library()
-    from taskchain import Config
+    from taskchain import Chain, Config
 
     res = Result()
     desc = config_world()
@@ -365,8 +365,23 @@ def _part_b(tier):
                 term = w.decode(t.value, 'json')['term']
                 if term != m.term(fn):
                     res.violations.append(Violation('config: task computed with unsubstituted or wrong values', f'{vid} {fn}: {term} vs {m.term(fn)}', case))
+        # placeholders in the strings the library itself consumes: `tasks` / `excluded_tasks` import strings
+        for field, spec in (('tasks', ['{PKG}.A', '{PKG}.B']), ('tasks+excluded', ['{PKG}.*'])):
+            res.add('evaluations')
+            res.add('distinct_nontrivial')
+            case = {'kind': 'tasks-placeholder', 'field': field}
+            try:
+                data = {'tasks': list(spec), 's': 'x'}
+                if field == 'tasks+excluded':
+                    data['excluded_tasks'] = ['{PKG}.B']
+                cfgp = Config(Path(root) / 'data4', name=f'ph_{field}', data=data, global_vars={'PKG': w.modname, 'DIR': '/d', 'N': 1})
+                names = sorted(Chain(cfgp).tasks)
+                want = ['a', 'b'] if field == 'tasks' else ['a']
+                if names != want:
+                    res.violations.append(Violation('config: placeholder in a task import string is not honoured', f'{field}: {spec} with PKG={w.modname}: chain tasks {names}, expected {want}', case))
+            except Exception as e:  # noqa
+                res.violations.append(Violation('config: placeholder in a task import string is not honoured', f'{field}: {spec}: {type(e).__name__}: {e}', case))
         # one caller-owned context (nested containers with placeholders under for_namespaces) used for two chains with different global_vars
-        from taskchain import Chain
         ctx = {'for_namespaces': {'n': {'nested': ['{DIR}/a', {'k': ['{DIR}/b']}], 's': '{DIR}/s'}}}
         snap = copy.deepcopy(ctx)
         for gv_dir in ('/dev-data', '/prod-data'):
